@@ -46,32 +46,45 @@ def find_guards(ctx):
             continue
         prod = cm[0].dest[0]
         dom = b.dominators()
-        some_edge = None
-        le_edges = []
-        for i in sorted(b.reachable(0)):
-            si = switch_info(b, i)
-            if not si:
-                continue
-            subj_local = si["subject"][1][0] if si["subject"][0] == "place" else (si["subject"][1].dest[0] if si["subject"][0] == "call" else None)
-            if si["kind"] == "disc" and si.get("adt") == "core::option::Option" and subj_local == prod:
-                for succ, labs in si["edges"].items():
-                    if labs == ["Some"]:
-                        some_edge = succ
-            t = b.term(i)
-            sp = op_place(t[1]) if t[0] == "switch" else None
-            d = b.single_def(sp[0]) if sp is not None and not sp[1] else None
-            if d and d[0] == "stmt" and d[3][0] == "bin" and d[3][1] in ("Le", "Lt"):
-                lp = op_place(d[3][2])
-                cv = panics._int_const(b, d[3][3])
-                if lp is not None and cv is not None and b.root(lp)[0] == prod:
-                    ft, tt = panics._switch_edges(t)
-                    le_edges.append((tt, cv if d[3][1] == "Le" else cv - 1))
         oks = [i for i, j, s in b.all_stmts() if s[0] == "=" and s[1] == [0, []] and s[2][0] == "agg" and s[2][1].get("adt") == "core::result::Result" and s[2][1]["variant"] == "Ok"]
-        if some_edge is None or not le_edges or not oks:
+        if not oks:
             continue
-        tt, C = le_edges[0]
-        if all((some_edge == i or some_edge in dom.get(i, set())) and (tt == i or tt in dom.get(i, set())) for i in oks):
-            out[norm(b.id)] = C
+        bound = None
+        good = True
+        for okb in oks:
+            # (a) reached only through the Some edge of the product
+            some_ok = False
+            for d_ in dom.get(okb, set()):
+                si = switch_info(b, d_)
+                if not si or si["kind"] != "disc" or si.get("adt") != "core::option::Option":
+                    continue
+                subj_local = si["subject"][1][0] if si["subject"][0] == "place" else (si["subject"][1].dest[0] if si["subject"][0] == "call" else None)
+                if subj_local != prod:
+                    continue
+                for succ, labs in si["edges"].items():
+                    if labs == ["Some"] and (succ == okb or succ in dom.get(okb, set())):
+                        some_ok = True
+            # (b) under a comparison of the product with a constant that bounds it from above, in whatever form it is written
+            #     (`p <= C` taken, `p > C` not taken, ...)
+            ub = None
+            for g in panics._cmp_guards(b, okb):
+                if g[0] != "bin":
+                    continue
+                _, op2, a, c, holds = g
+                ap = op_place(a)
+                cv = panics._int_const(b, c)
+                if ap is None or cv is None or b.root(ap)[0] != prod:
+                    continue
+                if (op2 == "Le" and holds) or (op2 == "Gt" and not holds):
+                    ub = cv if ub is None else min(ub, cv)
+                elif (op2 == "Lt" and holds) or (op2 == "Ge" and not holds):
+                    ub = cv - 1 if ub is None else min(ub, cv - 1)
+            if not some_ok or ub is None:
+                good = False
+                break
+            bound = ub if bound is None else max(bound, ub)
+        if good and bound is not None:
+            out[norm(b.id)] = bound
     return out
 
 
